@@ -20,6 +20,8 @@ for d in sorted(glob.glob('/verif/seeded/C*-m*')):
             cells.append(f"{chk}: n/a ({rest[:60]})")
         elif rc == '1':
             cells.append(f"**{chk}: caught** ({nv} VIOLATION lines)")
+        elif rc == '124':
+            cells.append(f"{chk}: not finished within the time limit (no verdict)")
         elif rc == '2':
             cells.append(f"{chk}: inconclusive (exit 2)")
         else:
